@@ -230,7 +230,10 @@ def decl_module(d, ops_wanted):
                         'out.push_str(&format!("rt_mp={} ", match rmp_serde::from_slice::<TT>(a) { Ok(v) => b(v.into_inner().same(&i)), Err(_) => "0" })); } } } '
                         'if let (Ok(a), Ok(bi)) = (&rt, &ri) { if let Ok(back) = ron::from_str::<Inner>(bi) { if back.same(&i) { '
                         'out.push_str(&format!("rt_ron={} ", match ron::from_str::<TT>(a) { Ok(v) => b(v.into_inner().same(&i)), Err(_) => "0" })); } } } '
-                        'out.trim_end().to_string() }),' % (mko % "x.clone()", mko % "x.clone()", sername))
+                        'if let Ok(ri2) = &ri { if let Ok(back) = ron::from_str::<Inner>(ri2) { if back.same(&i) { '
+                        'let named = ron::ser::to_string_pretty(&t, ron::ser::PrettyConfig::new().struct_names(true)); '
+                        'out.push_str(&format!("rt_ron_named={} ", match &named { Ok(a) => match ron::from_str::<TT>(a) { Ok(v) => b(v.into_inner().same(&i) && a.starts_with("%s(")), Err(_) => "0" }, Err(_) => "0" })); } } } '
+                        'out.trim_end().to_string() }),' % (mko % "x.clone()", mko % "x.clone()", sername, sername))
     mk = "TT::try_new(%s).ok()" if info.has_validation else "Some(TT::new(%s))"
     # ---- comparison traits on pairs (C12, C13)
     cmpf = []
@@ -267,6 +270,7 @@ def decl_module(d, ops_wanted):
             vf.append('out.push_str(&format!("borrow_str={} ", b(<TT as core::borrow::Borrow<str>>::borrow(&t) == i.as_str())));')
     if "Display" in info.traits:
         vf.append('out.push_str(&format!("display={} ", b(t.to_string() == i.to_string())));')
+        vf.append('out.push_str(&format!("display_fmt={} ", b(format!("{:>8}|{:*^9}|{:.2}|{:<6.1}|{:+}|{:08}", t, t, t, t, t, t) == format!("{:>8}|{:*^9}|{:.2}|{:<6.1}|{:+}|{:08}", i, i, i, i, i, i))));')
     if "Clone" in info.traits:
         vf.append('out.push_str(&format!("clone={} ", b(t.clone().into_inner().same(&i))));')
     if "Copy" in info.traits:
